@@ -490,6 +490,12 @@ gives one line break where the bytes have two -/
 theorem C06_C_cex_crcrlf :
     objOut [[97, 13, 13, 10], [98, 10]] = [97, 13, 10, 98, 10] ∧ specObjOut [97, 13, 13, 10, 98, 10] (objOut [[97, 13, 13, 10], [98, 10]]) = false := by decide
 
+/-- `a\rb\n` arriving as ONE fragment (the BytesIO path breaks at `\n` only): "one line" is decided by counting fragments, so
+the final newline is dropped although the normalised text has two lines -/
+theorem C06_C_cex_cr_onefragment :
+    objOut [[97, 13, 98, 10]] = [97, 13, 98] ∧ specObjOut [97, 13, 98, 10] (objOut [[97, 13, 98, 10]]) = false ∧
+    specObjOut [97, 13, 98, 10] (objOut [[97, 13], [98, 10]]) = true := by decide
+
 /-- `$()`: a one-line output that contains a vertical tab keeps its final newline (`str.splitlines` breaks at `\v`) -/
 theorem C06_C_cex_stdout_vt :
     stdoutOut [97, 11, 98, 10] = [97, 11, 98, 10] ∧ specStdout [97, 11, 98, 10] (stdoutOut [97, 11, 98, 10]) = false ∧
